@@ -77,6 +77,17 @@ func (x *Exec) loopInvariants(st *State, fr *Frame, l *Loop, phase string, assum
 			emitOrAssume(lbl, inv.Text, g.T, inv.Props)
 		}
 	}
+	if ls != nil && !assume && phase == "step" {
+		// iteration-end assertions: proved on every path that reaches the back edge, never assumed at the head
+		for i, sc := range ls.StepChecks {
+			g := x.evalSpec(sc.E, env)
+			lbl := sc.Label
+			if lbl == "" {
+				lbl = fmt.Sprintf("stepcheck%d", i)
+			}
+			emitOrAssume(lbl, sc.Text, g.T, sc.Props)
+		}
+	}
 	if ls != nil && assume {
 		for _, u := range ls.Uses {
 			x.useLemma(st, env, u, nil)
